@@ -33,7 +33,7 @@ def check(repo, tier="quick"):
     res.rule("C03.d", "fragments: first fragment holds the transform parameters and no slices; every slice is appended exactly once, in raster order; a new fragment starts exactly when the previous one holds fragment_slice_count slices and carries the coordinates of its first slice")
     res.rule("C03.e", "shared clauses re-evaluated: data-unit patterns (C19.e), every rule of C07 (the encoder leaves parse offsets, picture numbers and major_version to automatic filling), every rule of C15 (the emitted sequence header decodes to the configured format), lossless slice-size scaler fits the length field (C04.f)")
     res.rule("C03.g", "no call in the encoder passes same-named coordinates/sizes to the wrong parameters, and no size guard is followed by a further decrement of the guarded quantity")
-    res.rule("C03.h", "what the validator rejects about the configured format the encoder rejects too: the validator refuses frame sizes that are not whole multiples of the luma and colour-difference picture sizes (PictureDimensionsNotMultipleOfFrameDimensions, e.g. an odd width with 4:2:2 sampling or an odd height coded as fields); the encoder or the codec-features reader must raise for the same condition (a divisibility test on the frame dimensions guarding a raise), otherwise it accepts a configuration whose stream the validator rejects")
+    res.rule("C03.h", "what the validator rejects about the configured format the encoder rejects too: the validator refuses frame sizes that are not whole multiples of the luma and colour-difference picture sizes (PictureDimensionsNotMultipleOfFrameDimensions, e.g. an odd width with 4:2:2 sampling or an odd height coded as fields); the encoder or the codec-features reader must raise for the same condition (a divisibility test on the frame dimensions guarding a raise), otherwise it accepts a configuration whose stream the validator rejects; likewise for a clean area that does not fit inside the frame (CleanAreaOutOfRange)")
     res.rule("C03.f", "scratch State dictionaries the encoder builds for the pseudocode helpers (slice_bytes, picture_dimensions, ...) bind every key to its own source: codec_features[k] under key k, width()/height() of the slice array under the _x/_y key, a same-named local under its own name")
 
     rule_a(repo, res)
@@ -426,4 +426,18 @@ def rule_h(repo, res):
                 t = norm(i.test)
                 if "%" in t and any(k in t for k in ("frame_width", "frame_height", "luma_width", "luma_height", "color_diff_width", "color_diff_height")):
                     found.append("%s:%d" % (m.rel, i.lineno))
+    # same for the clean area: the validator raises CleanAreaOutOfRange when clean size + offset exceeds the frame
+    v2 = [r for r in ast.walk(dm.tree) if isinstance(r, ast.Raise) and isinstance(r.exc, ast.Call) and dotted(r.exc.func) == "CleanAreaOutOfRange"]
+    if not v2:
+        raise AnalysisError("validator no longer raises CleanAreaOutOfRange")
+    found2 = []
+    for name, m in sorted(repo.modules.items()):
+        if not (name.startswith("vc2_conformance.encoder.") or name.endswith(".codec_features")):
+            continue
+        for i in ast.walk(m.tree):
+            if isinstance(i, ast.If) and any(isinstance(x, ast.Raise) for x in ast.walk(i)):
+                t = norm(i.test)
+                if ("clean_width" in t or "clean_height" in t) and ("frame_width" in t or "frame_height" in t):
+                    found2.append("%s:%d" % (m.rel, i.lineno))
+    res.check(bool(found2), "C03.h", "clean-area-within-frame:encoder-counterpart", "vc2_conformance/encoder", "the validator rejects a clean area that does not fit inside the frame (CleanAreaOutOfRange, 11.4.8), but neither the encoder nor read_codec_features_csv tests this: e.g. hd1080p_50 with frame_width/height overridden to 1280x720 and the clean area left at its default (1920x1080) is accepted, and every generated sequence header is rejected by the validator", by="guarded raise at %s" % ", ".join(found2))
     res.check(bool(found), "C03.h", "frame-size-divisibility:encoder-counterpart", "vc2_conformance/encoder", "the validator rejects frame sizes that are not whole multiples of the picture component sizes (decoder/sequence_header.py), but neither the encoder nor read_codec_features_csv tests this: e.g. a 7x4 4:2:2 configuration is accepted, encoded, and the stream is then rejected by the validator", by="guarded raise at %s" % ", ".join(found))
